@@ -3,6 +3,7 @@ package sio
 import (
 	"encoding/json"
 	"fmt"
+	"github.com/karagenc/socket.io-go/internal/vhook"
 	"reflect"
 	"time"
 )
@@ -27,9 +28,11 @@ func (n *Namespace) runMiddlewares(socket *serverSocket, handshake *Handshake) e
 	n.middlewareFuncsMu.RLock()
 	defer n.middlewareFuncsMu.RUnlock()
 
-	for _, f := range n.middlewareFuncs {
+	for i, f := range n.middlewareFuncs {
+		vhook.Event("mw.enter", "nsp", n.name, "sid", socket.ID(), "i", i+1)
 		err := f(socket, handshake)
 		if err != nil {
+			vhook.Event("mw.reject", "nsp", n.name, "sid", socket.ID(), "i", i+1)
 			return &middlewareError{v: err}
 		}
 	}
